@@ -106,6 +106,13 @@ func plantCanaries(w *wire.Writer) {
 		o.decoded.(*osm.Change).Create = nil
 		add(roundCase(4, 1, v, o, ""))
 	})
+	// 12. the installed codec saw one marshalJSON call less than the model says
+	safely(func() {
+		v := canaryOSM()
+		o := observe(1, v)
+		o.m--
+		add(roundCase(1, 1, v, o, ""))
+	})
 	// 11. big case: a count in the decoded summary off by one
 	safely(func() {
 		c := bigCase(0, 33)
